@@ -13,6 +13,7 @@ Local Notation relT := (TxFlow_Inv.relT all).
 Local Notation InvS := (TxFlow_Inv.InvS all).
 Local Notation InvU := (TxFlow_Inv.InvU dl all).
 Local Notation Inv := (TxFlow_Inv.Inv dl all).
+Local Notation inblock := (TxFlow_Inv.inblock all).
 Local Notation vs_chain0 := (TxFlow_Inv.vs_chain0 all).
 Local Notation vs_D := (TxFlow_Inv.vs_D all).
 Local Notation vs_FL := (TxFlow_Inv.vs_FL all).
@@ -22,6 +23,8 @@ Local Notation vs_REL := (TxFlow_Inv.vs_REL all).
 Local Notation vs_OUTS := (TxFlow_Inv.vs_OUTS all).
 Local Notation vs_PRF := (TxFlow_Inv.vs_PRF all).
 Local Notation vs_PRF0 := (TxFlow_Inv.vs_PRF0 all).
+Local Notation vs_PRFB := (TxFlow_Inv.vs_PRFB all).
+Local Notation vs_BODY := (TxFlow_Inv.vs_BODY all).
 Local Notation vu_clock := (TxFlow_Inv.vu_clock dl all).
 Local Notation vu_sync := (TxFlow_Inv.vu_sync dl all).
 Local Notation vu_chain := (TxFlow_Inv.vu_chain dl all).
@@ -42,14 +45,12 @@ Local Notation vu_VNOW := (TxFlow_Inv.vu_VNOW dl all).
 Local Notation vu_VPER := (TxFlow_Inv.vu_VPER dl all).
 Local Notation vu_UUNS := (TxFlow_Inv.vu_UUNS dl all).
 Local Notation vu_CONF := (TxFlow_Inv.vu_CONF dl all).
-Local Notation vu_RS := (TxFlow_Inv.vu_RS dl all).
 Local Notation vu_HELD := (TxFlow_Inv.vu_HELD dl all).
-Local Notation vu_LIMBO := (TxFlow_Inv.vu_LIMBO dl all).
+Local Notation vu_BODY := (TxFlow_Inv.vu_BODY dl all).
+Local Notation vu_LND := (TxFlow_Inv.vu_LND dl all).
 Local Notation T_body := (TxFlow_Inv.T_body dl all Hv).
 Local Notation relT_rel := (TxFlow_Inv.relT_rel dl all Hv).
 Local Notation mentions_T := (TxFlow_Inv.mentions_T all).
-Local Notation cnf_conf := (TxFlow_Inv.cnf_conf).
-Local Notation cnf_false := (TxFlow_Inv.cnf_false).
 Local Notation gen_states := (TxFlow_Inv.gen_states all).
 Local Notation gen_checks := (TxFlow_Inv.gen_checks dl all).
 Local Notation InvS_frame := (TxFlow_Inv.InvS_frame all).
@@ -64,39 +65,9 @@ Local Notation step_inv := (TxFlow_Inv.step_inv dl all).
 Local Notation monitor_step_events := (TxFlow_Inv.monitor_step_events dl).
 Local Notation monitor_step_reorg := (TxFlow_Inv.monitor_step_reorg dl).
 Local Notation step_delay := (TxFlow_Inv.step_delay dl all).
-Local Notation inblock := (TxFlow_Inv.inblock all).
-Local Notation vs_PRFB := (TxFlow_Inv.vs_PRFB all).
-Local Notation Ext_no_both := (TxFlow_Inv.Ext_no_both).
-Local Notation confirmed_iff := (TxFlow_Inv.confirmed_iff).
-Local Notation conf_dec := (TxFlow_Inv.conf_dec).
-Local Notation conf_same_proof := (TxFlow_Inv.conf_same_proof).
 
 (* ---------------------------------------------------------------------------------------- *)
 (* an unconfirmed transaction is processed: what the model does *)
-Lemma add_tx_facts s now t body tr :
-  let r := add_transaction s now t body tr in
-  (snd (snd r) = true -> snd (fst (snd r)) = tr) /\
-  forall t', is_trusted (fst r) t' = if decide (t' = t) then is_trusted s t || tr else is_trusted s t'.
-Proof.
-  cbv zeta. unfold add_transaction, is_trusted.
-  destruct (txs s !! t) as [m0|] eqn:Em.
-  - assert (Hm1 : mtrusted (if tr && negb (mtrusted m0) then MTx (mtime m0) (outpoints m0) true else m0)
-                  = mtrusted m0 || tr).
-    { destruct (mtrusted m0) eqn:E; destruct tr; cbn; rewrite ?E; reflexivity. }
-    destruct (negb (zlen (outpoints m0) =? 0)) eqn:Eo.
-    + cbn [fst snd txs]. split; [discriminate|]. intros t'.
-      destruct (decide (t' = t)) as [->|Hne];
-        [rewrite lookup_insert; exact Hm1 | rewrite lookup_insert_ne by congruence; reflexivity].
-    + destruct (add_inputs (inputs s) [] t body) as [ins c]. cbn [fst snd txs].
-      split; [reflexivity|]. intros t'.
-      destruct (decide (t' = t)) as [->|Hne];
-        [rewrite lookup_insert; exact Hm1 | rewrite lookup_insert_ne by congruence; reflexivity].
-  - destruct (add_inputs (inputs s) [] t body) as [ins c]. cbn [fst snd txs].
-    split; [reflexivity|]. intros t'.
-    destruct (decide (t' = t)) as [->|Hne];
-      [rewrite lookup_insert; reflexivity | rewrite lookup_insert_ne by congruence; reflexivity].
-Qed.
-
 Definition noF : Z -> Prop := fun _ => False.
 
 Definition ouns (os : option tstate) : bool := match os with Some so => s_unsafe so | None => false end.
@@ -131,18 +102,19 @@ Definition tx_caseC (n n' : node) (evs : list event) (t : Z) (body : list Z) (re
   (forall so, states n !! t = Some so -> ~ conf n so) /\
   unconf n' !! t = Some (UTx (now n) false sf tr) /\
   exists s1, ETx t s1 ∈ evs /\ s_proof s1 = oproof (states n !! t) /\ outs_ok body (s_outs s1) = true /\
-             s_safe s1 = sf && negb cn /\ s_unsafe s1 = cn || ouns (states n !! t) /\
-             s_cancel s1 = ocan (states n !! t).
+             s_safe s1 = sf && negb cn && negb (ouns (states n !! t) || ocan (states n !! t)) /\
+             s_unsafe s1 = cn || ouns (states n !! t) /\
+             s_cancel s1 = ocan (states n !! t) /\ s_body s1 = body.
 
-Lemma pu_spec Rs n m t body rel tr sf :
-  Inv Rs n m -> (t, body, rel) ∈ T -> held (m_pool m) t = false ->
+Lemma pu_spec n m t body rel tr sf :
+  Inv n m -> (t, body, rel) ∈ T -> held (m_pool m) t = false ->
   let p := m_pool m in
   let cfs := conflicts_of p t body in
   let cn := negb (zlen cfs =? 0) in
   exists n' evs,
     process_unconfirmed n t body rel tr sf = (n', evs) /\
-    R (mp n') (if zlen body =? 0 then p else p ++ [(t, body)]) /\
-    (forall t', is_trusted (mp n') t' = if decide (t' = t) then is_trusted (mp n) t || tr
+    R (mp n') (if confirmed n t || (zlen body =? 0) then p else p ++ [(t, body)]) /\
+    (forall t', is_trusted (mp n') t' = if decide (t' = t) then (if confirmed n t then false else is_trusted (mp n) t || tr)
                                         else is_trusted (mp n) t') /\
     same_misc n n' /\
     Ext noF (states n) (states n') evs /\
@@ -155,7 +127,7 @@ Lemma pu_spec Rs n m t body rel tr sf :
     (forall x s, ETx x s ∈ evs -> x = t).
 Proof.
   intros [HS HU] HT Hheld p cfs cn.
-  pose proof (R_add (mp n) p (now n) t body tr (vu_R _ _ _ HU)) as Hadd. cbv zeta in Hadd.
+  pose proof (R_add (mp n) p (now n) t body tr (vu_R _ _ HU)) as Hadd. cbv zeta in Hadd.
   pose proof (add_tx_facts (mp n) (now n) t body tr) as Hfacts. cbv zeta in Hfacts.
   unfold process_unconfirmed.
   destruct (add_transaction (mp n) (now n) t body tr) as [m1 [[cfs0 tr1] added]].
@@ -166,7 +138,7 @@ Proof.
   assert (added = true) by (destruct added; [reflexivity|discriminate]). subst added.
   fold cfs in Hcfs. subst cfs0. specialize (Htr1 eq_refl). subst tr1. clear Hobs Hadded.
   cbn [negb]. rewrite orb_diag.
-  assert (Hndc : NoDup cfs) by (apply add_returns_conflicts, (R_nodup _ _ (vu_R _ _ _ HU))).
+  assert (Hndc : NoDup cfs) by (apply add_returns_conflicts, (R_nodup _ _ (vu_R _ _ HU))).
   assert (Htc : t ∉ cfs).
   { intros Hin. apply conflicts_of_elem in Hin. destruct Hin as [Hne _]. congruence. }
   change (conflicts_of p t body) with cfs.
@@ -182,18 +154,20 @@ Proof.
   { intros Hk. apply tkeys_elem in Hk. destruct Hk as (s & Hk). destruct (Hev1 t s Hk) as (H1 & _). contradiction. }
   assert (Hs2t : states n2 !! t = states n !! t) by (apply (x_out _ _ _ _ HE2 t Htk1)).
   assert (Hrelt : is_Some (unconf n !! t) -> rel = true).
-  { intros Hu. destruct (vu_US _ _ _ HU t Hu) as (s & Hs & _).
+  { intros Hu. destruct (vu_US _ _ HU t Hu) as (s & Hs & _).
     apply (relT_rel t body rel); [|exact HT]. apply (vs_REL _ _ HS). eauto. }
   assert (HnoETx1 : forall x s, ETx x s ∈ evs1 -> False).
   { intros x s H. destruct (Hev1 x s (or_introl H)) as (_ & Hu & Hup & _). eapply Ext_no_both; eauto. }
   (* common parts of the conclusion, for a final node n' that agrees with n2 except at key t *)
   assert (Fin : forall n' evs,
-    mp n' = mp n2 -> same_misc n2 n' -> Ext noF (states n) (states n') evs ->
+    (confirmed n t = false /\ mp n' = mp n2) \/
+    (confirmed n t = true /\ mp n' = fst (remove_transaction (mp n2) t)) ->
+    same_misc n2 n' -> Ext noF (states n) (states n') evs ->
     (forall x, x <> t -> unconf n' !! x = unconf n2 !! x) ->
     (tx_caseA n n' evs t rel \/ tx_caseB n n' evs t rel tr sf cn \/ tx_caseC n n' evs t body rel tr sf cn) ->
     (exists evt, evs = evs1 ++ evt /\ (forall x s, tev_in evt x s -> x = t)) ->
-    R (mp n') (if zlen body =? 0 then p else p ++ [(t, body)]) /\
-    (forall t', is_trusted (mp n') t' = if decide (t' = t) then is_trusted (mp n) t || tr
+    R (mp n') (if confirmed n t || (zlen body =? 0) then p else p ++ [(t, body)]) /\
+    (forall t', is_trusted (mp n') t' = if decide (t' = t) then (if confirmed n t then false else is_trusted (mp n) t || tr)
                                         else is_trusted (mp n) t') /\
     same_misc n n' /\
     Ext noF (states n) (states n') evs /\
@@ -205,7 +179,18 @@ Proof.
     (forall c, c ∈ cfs -> is_Some (unconf n !! c) -> exists s, EUpdate c s ∈ evs /\ s_unsafe s = true) /\
     (forall x s, ETx x s ∈ evs -> x = t)).
   { intros n' evs Hmp' Hmisc' HE' Hunc' Hcase (evt & Hevs & Hevt).
-    split; [rewrite Hmp', Hmp2; exact HR1|]. split; [rewrite Hmp', Hmp2; exact Htrust|].
+    split.
+    { destruct Hmp' as [[-> ->]|[-> ->]]; rewrite Hmp2; cbn [orb]; [exact HR1|].
+      destruct (R_remove m1 _ t HR1) as [HRr _].
+      replace (remove_tx (if zlen body =? 0 then p else p ++ [(t, body)]) t) with p in HRr; [exact HRr|].
+      symmetry. destruct (zlen body =? 0); [apply remove_tx_id, Hheld|].
+      transitivity (remove_tx p t ++ remove_tx [(t, body)] t); [apply filter_app|].
+      rewrite (remove_tx_id p t Hheld). unfold remove_tx. cbn.
+      rewrite decide_False by (intros H; apply H; reflexivity). apply app_nil_r. }
+    split.
+    { intros t'. destruct Hmp' as [[-> ->]|[-> ->]]; rewrite Hmp2; [apply Htrust|].
+      rewrite rm_trusted. destruct (decide (t' = t)) as [->|Hne]; [reflexivity|].
+      rewrite Htrust. rewrite decide_False by exact Hne. reflexivity. }
     split; [eapply same_misc_trans; [|exact Hmisc']; exact Hmisc2|]. split; [exact HE'|].
     split; [intros x Hne; rewrite (Hunc' x Hne); apply Hunc2|]. split; [exact Hcase|].
     split; [|split].
@@ -213,19 +198,25 @@ Proof.
       + destruct (Hev1 x s H) as (H1 & H2 & H3 & H4 & H5). split; [exact H1|]. split; [exact H2|].
         split; [apply elem_of_app; left; exact H3|]. auto.
       + destruct Hne. eapply Hevt; eauto.
-    - intros c Hc Hu. destruct (vu_US _ _ _ HU c Hu) as (so & Hso & _).
+    - intros c Hc Hu. destruct (vu_US _ _ HU c Hu) as (so & Hso & _).
       destruct (Hev2 c Hc Hu) as (s & H1 & H2); [eauto|].
       exists s. split; [subst evs; apply elem_of_app; left; exact H1|exact H2].
     - intros x s H. subst evs. apply elem_of_app in H. destruct H as [H|H].
       + destruct (HnoETx1 x s H).
       + eapply Hevt. left. exact H. }
+  assert (Hcf_of : (forall s, states n !! t = Some s -> ~ conf n s) -> confirmed n t = false).
+  { intros H. destruct (confirmed n t) eqn:E; [|reflexivity]. apply confirmed_iff in E.
+    destruct E as (s & Hs & Hc). destruct (H s Hs Hc). }
   destruct rel.
   2:{ (* not relevant: never tracked *)
     cbn [negb].
+    assert (Hcf : confirmed n t = false).
+    { apply Hcf_of. intros s Hs _. assert (Hr : relT t) by (apply (vs_REL _ _ HS); eauto).
+      pose proof (relT_rel t body false Hr HT). discriminate. }
     assert (Hnt : unconf n !! t = None).
     { destruct (unconf n !! t) eqn:E; [|reflexivity]. discriminate (Hrelt (ex_intro _ _ eq_refl)). }
     eexists. eexists. split; [reflexivity|].
-    apply Fin; try reflexivity.
+    apply Fin; try reflexivity; [left; split; [exact Hcf|reflexivity]|..].
     - repeat split.
     - exact HE2.
     - intros x Hne. cbn. apply lookup_delete_ne. congruence.
@@ -234,14 +225,16 @@ Proof.
   cbn [negb].
   rewrite Hu2t. destruct (unconf n !! t) as [u|] eqn:Eu.
   - (* already tracked *)
-    destruct (vu_US _ _ _ HU t) as (so & Hso & Hpo); [eauto|].
+    destruct (vu_US _ _ HU t) as (so & Hso & Hpo); [eauto|].
+    assert (Hcf : confirmed n t = false).
+    { apply Hcf_of. intros s Hs. assert (s = so) by congruence. subst s. exact Hpo. }
     fold cn.
     set (u1 := UTx (u_time u) (u_unsafe u) (u_safe u || sf) (u_trusted u || tr)).
     destruct cn eqn:Ecn.
     + (* conflict known now: marked unsafe *)
       cbn [states set_unconf]. rewrite Hs2t, Hso.
       eexists. eexists. split; [reflexivity|].
-      apply Fin; try reflexivity.
+      apply Fin; try reflexivity; [left; split; [exact Hcf|reflexivity]|..].
       * repeat split.
       * cbn [states set_states set_unconf].
         apply (Ext_upd noF _ _ evs1 t so); [exact HE2|exact Htk1|rewrite Hs2t; exact Hso|apply trans_mk_unsafe].
@@ -265,7 +258,7 @@ Proof.
         cbn [states set_unconf]. rewrite Hs2t, Hso.
         destruct (s_safe so || s_unsafe so || s_cancel so) eqn:Eflags.
         -- eexists. eexists. split; [reflexivity|].
-           apply Fin; try reflexivity.
+           apply Fin; try reflexivity; [left; split; [exact Hcf|reflexivity]|..].
            ++ repeat split.
            ++ exact HE2.
            ++ intros x Hne. cbn. rewrite lookup_insert_ne by congruence. reflexivity.
@@ -281,7 +274,7 @@ Proof.
            assert (Hns : (s_unsafe so || s_cancel so) = false).
            { apply orb_false_iff in Eflags. destruct Eflags as [Ef1 Ef2]. apply orb_false_iff in Ef1.
              destruct Ef1 as [_ Ef1]. rewrite Ef1, Ef2. reflexivity. }
-           apply Fin; try reflexivity.
+           apply Fin; try reflexivity; [left; split; [exact Hcf|reflexivity]|..].
            ++ repeat split.
            ++ cbn [states set_states set_unconf].
               apply (Ext_upd noF _ _ evs1 t so); [exact HE2|exact Htk1|rewrite Hs2t; exact Hso|].
@@ -301,7 +294,7 @@ Proof.
            ++ eexists. split; [reflexivity|]. intros x s H. apply tev_in_single in H.
               destruct H as [H|H]; inversion H; reflexivity.
       * eexists. eexists. split; [reflexivity|].
-        apply Fin; try reflexivity.
+        apply Fin; try reflexivity; [left; split; [exact Hcf|reflexivity]|..].
         -- repeat split.
         -- exact HE2.
         -- intros x Hne. cbn. rewrite lookup_insert_ne by congruence. reflexivity.
@@ -322,12 +315,13 @@ Proof.
     destruct (states n !! t) as [s|] eqn:Est.
     + destruct (conf_dec n s) as [Hcf|Hncf].
       * (* delivered earlier with its confirmation in a block that is still in the chain *)
+        assert (Hcft : confirmed n t = true) by (apply confirmed_iff; eauto).
         destruct Hcf as (b & Hpb & Hbc).
         assert (Hic : in_chain nn b = true).
         { unfold in_chain. subst nn. cbn [chain set_unconf]. rewrite Hch2. apply mem_elem, Hbc. }
         rewrite Hpb, Hic.
         eexists. eexists. split; [reflexivity|].
-        apply Fin; try reflexivity.
+        apply Fin; try reflexivity; [right; split; [exact Hcft|reflexivity]|..].
         -- repeat split.
         -- exact HE2.
         -- intros x Hne. subst nn. cbn. rewrite lookup_delete_ne, lookup_insert_ne by congruence. reflexivity.
@@ -336,18 +330,21 @@ Proof.
         -- exists []. rewrite app_nil_r. split; [reflexivity|]. intros x s' H. destruct (tev_in_nil _ _ H).
       * (* the block that confirmed it was orphaned: it is delivered as new again; the stored flags, proof
            and depth are kept *)
+        assert (Hcf : confirmed n t = false).
+        { apply Hcf_of. intros s' Hs'. assert (s' = s) by congruence. subst s'. exact Hncf. }
         destruct (s_proof s) as [b|] eqn:Ep.
-        2:{ destruct (vu_SU _ _ _ HU t s Est Ep) as (u & Hu). congruence. }
+        2:{ destruct (vu_SU _ _ HU t s Est Ep) as (u & Hu). congruence. }
         assert (Hic : in_chain nn b = false).
         { unfold in_chain. subst nn. cbn [chain set_unconf]. rewrite Hch2. apply mem_false.
           intros Hb. apply Hncf. exists b. auto. }
         rewrite Hic. fold cn.
-        set (s1 := if cn then TState false true (s_cancel s) (s_depth s) (Some b) (s_outs s)
-                   else TState (sf || sf) (s_unsafe s) (s_cancel s) (s_depth s) (Some b) (s_outs s)).
+        set (s1 := if cn then TState false true (s_cancel s) (s_depth s) (Some b) (s_outs s) (s_body s)
+                   else TState ((sf || sf) && negb (s_unsafe s || s_cancel s)) (s_unsafe s) (s_cancel s) (s_depth s)
+                               (Some b) (s_outs s) (s_body s)).
         exists (set_states nn (<[t:=s1]> (states nn))), (evs1 ++ [ETx t s1]).
         split.
-        { subst s1. cbn [s_cancel s_unsafe s_outs s_proof s_depth]. destruct cn; reflexivity. }
-        apply Fin; try reflexivity.
+        { subst s1. cbn [s_cancel s_unsafe s_outs s_proof s_depth s_body]. destruct cn; reflexivity. }
+        apply Fin; try reflexivity; [left; split; [exact Hcf|reflexivity]|..].
         -- repeat split.
         -- cbn [states set_states set_unconf]. subst nn. cbn [states set_unconf].
            apply Ext_new; [exact HE2|exact Htk1|]. rewrite Hs2t. cbn [oproof]. rewrite Ep.
@@ -360,17 +357,19 @@ Proof.
            split; [subst s1; destruct cn; cbn; congruence|].
            split; [replace (s_outs s1) with (s_outs s) by (subst s1; destruct cn; reflexivity);
                    apply (vs_OUTS _ _ HS t s body true Est HT)|].
-           subst s1. destruct cn; cbn; rewrite ?orb_diag, ?andb_true_r, ?andb_false_r; auto.
+           subst s1. destruct cn; cbn; rewrite ?orb_diag, ?andb_true_r, ?andb_false_r;
+             (repeat (split; [reflexivity|])); apply (vs_BODY _ _ HS t s body true Est HT).
         -- eexists. split; [reflexivity|]. intros x s' H. apply tev_in_single in H.
            destruct H as [H|H]; inversion H; reflexivity.
     + (* first seen: delivered now *)
+      assert (Hcf : confirmed n t = false) by (apply Hcf_of; intros s' Hs'; congruence).
       cbn [s_proof]. fold cn.
-      set (s1 := if cn then TState false true false 1 None (spent_outputs nn body)
-                 else TState (sf || sf) false false 1 None (spent_outputs nn body)).
+      set (s1 := if cn then TState false true false 1 None (spent_outputs nn body) body
+                 else TState ((sf || sf) && negb (false || false)) false false 1 None (spent_outputs nn body) body).
       exists (set_states nn (<[t:=s1]> (states nn))), (evs1 ++ [ETx t s1]).
       split.
-      { subst s1. cbn [s_cancel s_unsafe s_outs s_proof]. destruct cn; reflexivity. }
-      apply Fin; try reflexivity.
+      { subst s1. cbn [s_cancel s_unsafe s_outs s_proof s_body]. destruct cn; reflexivity. }
+      apply Fin; try reflexivity; [left; split; [exact Hcf|reflexivity]|..].
       * repeat split.
       * cbn [states set_states set_unconf]. subst nn. cbn [states set_unconf].
         apply Ext_new; [exact HE2|exact Htk1|]. rewrite Hs2t. cbn [oproof].
@@ -380,7 +379,7 @@ Proof.
         split; [intros so Hso; rewrite Est in Hso; discriminate|].
         split; [subst nn; cbn; rewrite lookup_insert, Hnow2; reflexivity|].
         exists s1. split; [apply elem_of_app; right; left|]. rewrite Est. cbn [oproof ouns ocan].
-        subst s1. destruct cn; cbn; rewrite ?outs_ok_spent, ?orb_diag, ?andb_true_r, ?andb_false_r; auto.
+        subst s1. destruct cn; cbn; rewrite ?outs_ok_spent, ?orb_diag, ?andb_true_r, ?andb_false_r; auto 10.
       * eexists. split; [reflexivity|]. intros x s' H. apply tev_in_single in H.
         destruct H as [H|H]; inversion H; reflexivity.
 Qed.
@@ -402,37 +401,32 @@ Qed.
 Ltac dcase H :=
   destruct H as [(A1 & A2 & A3 & A4)|
                  [(u & u' & so & B1 & B2 & B3 & B4 & B5 & B6 & B7 & B8 & B9 & B10 & B11 & B12 & B13)|
-                  (C1 & C3 & C2 & C4 & s1 & C5 & C6 & C7 & C8 & C9 & C10)]].
+                  (C1 & C3 & C2 & C4 & s1 & C5 & C6 & C7 & C8 & C9 & C10 & C11)]].
 
 Definition src_tr (s : src) : bool := match s with SUntrusted => false | _ => true end.
 Definition src_sf (s : src) : bool := match s with SLocal => true | _ => false end.
 
-Lemma tx_processed Rs n m t body rel src :
-  Inv Rs n m -> OTx t body rel src ∈ all ->
+Lemma confirmed_m_n n m t : InvS n m -> m_chain m = chain n -> confirmed_m m t = confirmed n t.
+Proof.
+  intros HS Hc. unfold confirmed_m, confirmed, in_chain. rewrite (vs_PRF _ _ HS), Hc.
+  destruct (states n !! t) as [s|]; [|reflexivity]. cbn [oproof]. destruct (s_proof s); reflexivity.
+Qed.
+
+Lemma tx_processed n m t body rel src :
+  Inv n m -> OTx t body rel src ∈ all ->
   (match src with STrusted => m_insync m | _ => true end) = true ->
   let r := process_unconfirmed n t body rel (src_tr src) (src_sf src) in
-  (forall x s' so, ETx x s' ∈ snd r -> states n !! x = Some so -> s_unsafe so = true -> s_safe s' = false) ->
-  exists m', monitor_step dl m (OTx t body rel src) (OK :: enc_events (snd r)) = (0, m') /\
-             Inv (if confirmed n t then add_z t Rs else Rs) (fst r) m'.
+  exists m', monitor_step dl m (OTx t body rel src) (OK :: enc_events (snd r)) = (0, m') /\ Inv (fst r) m'.
 Proof.
-  intros [HS HU] Ho Hproc r Hok. subst r.
+  intros [HS HU] Ho Hproc r. subst r.
   rewrite monitor_step_events by (try reflexivity; discriminate). cbv zeta.
   assert (HT : (t, body, rel) ∈ T) by (apply (mentions_T _ _ Ho); left).
   set (tr := src_tr src) in *. set (sf := src_sf src) in *.
-  set (Rs' := if confirmed n t then add_z t Rs else Rs).
   pose proof (vs_chain0 _ _ HS) as Hch0.
-  assert (HRsub : forall x, x ∈ Rs -> x ∈ Rs').
-  { intros x Hx. subst Rs'. destruct (confirmed n t); [apply add_z_elem; auto|exact Hx]. }
-  assert (HRnew : forall x, x ∈ Rs' -> x ∈ Rs \/ (x = t /\ exists s, states n !! t = Some s /\ conf n s)).
-  { intros x Hx. subst Rs'. destruct (confirmed n t) eqn:Ec; [|auto].
-    apply add_z_elem in Hx. destruct Hx as [Hx| ->]; [auto|]. right. split; [reflexivity|].
-    apply confirmed_iff, Ec. }
-  assert (HRt : forall s, states n !! t = Some s -> conf n s -> t ∈ Rs').
-  { intros s Hs Hc. subst Rs'. replace (confirmed n t) with true; [apply add_z_elem; auto|].
-    symmetry. apply confirmed_iff. eauto. }
+  pose proof (confirmed_m_n n m t HS (vu_chain _ _ HU)) as Hcfm.
   destruct (held (m_pool m) t) eqn:Hheld.
   { (* the body is already held: nothing happens *)
-    destruct (pu_held n (m_pool m) t body rel tr sf (vu_R _ _ _ HU) Hheld) as [Hpu HR1].
+    destruct (pu_held n (m_pool m) t body rel tr sf (vu_R _ _ HU) Hheld) as [Hpu HR1].
     pose proof (add_tx_facts (mp n) (now n) t body tr) as Hfacts. cbv zeta in Hfacts.
     destruct Hfacts as [_ Htrust].
     rewrite Hpu. cbn [fst snd map]. cbn [first_bad fold_left]. rewrite !Z.eqb_refl. cbn [negb].
@@ -442,7 +436,7 @@ Proof.
     split.
     - eapply InvS_frame; [exact HS|reflexivity|exact Hch0|]. repeat split.
     - destruct HU as [Uclock Usync Uchain Udelay UR UpoolT UpoolS UL UUS USU USEEN USAFE1 USAFE2 USAFE3 UVCH UVCH2 UVNOW
-                     UVPER UUUNS UCONF URS UHELD ULIMBO].
+                     UVPER UUUNS UCONF UHELD UBODY ULND].
       split; cbn; try assumption.
       + intros t' u H1 H2. destruct src; try (apply add_z_elem; left); eapply UVCH; eauto.
       + intros t' H. rewrite Htrust in H. destruct (decide (t' = t)) as [->|Hne].
@@ -461,13 +455,10 @@ Proof.
           rewrite decide_True by reflexivity. apply orb_true_r.
         * apply add_z_elem in H. destruct H as [H| ->]; [apply Hold, H|]. left. rewrite Htrust.
           rewrite decide_True by reflexivity. apply orb_true_r.
-      + intros t' Hin Hrel. destruct (UCONF t' Hin Hrel) as (s & Hs & H). exists s. split; [exact Hs|].
-        destruct H; auto.
-      + intros t' Hin. destruct (HRnew t' Hin) as [H|[-> H]]; [apply URS, H|exact H].
-      + intros t' b s Hin Hs Hc. apply HRsub. eapply UHELD; eauto. }
-  pose proof (pu_spec Rs n m t body rel tr sf (conj HS HU) HT Hheld) as Hspec. cbv zeta in Hspec.
+  }
+  pose proof (pu_spec n m t body rel tr sf (conj HS HU) HT Hheld) as Hspec. cbv zeta in Hspec.
   destruct Hspec as (n' & evs & Hpu & HR' & Htrust & Hmisc & HE & Hunc & Hcase & Hev1 & Hev2 & Hetx).
-  rewrite Hpu in Hok |- *. cbn [fst snd] in Hok |- *. clear Hpu.
+  rewrite Hpu. cbn [fst snd]. clear Hpu.
   set (cfs := conflicts_of (m_pool m) t body) in *.
   set (cs := conflicting_held (m_pool m) t body).
   assert (Hcs : forall x, x ∈ cs <-> x ∈ cfs) by (intros x; apply conflicting_held_conflicts_of).
@@ -492,9 +483,19 @@ Proof.
   assert (Hpr : forall x s, states n' !! x = Some s -> s_proof s = oproof (states n !! x)).
   { intros x s Hs. destruct (Ext_proof _ _ _ _ x s HE Hs) as [Hp|(b & _ & [])]. exact Hp. }
   assert (Hfwd : forall x so0, states n !! x = Some so0 ->
-            exists s, states n' !! x = Some s /\ s_proof s = s_proof so0 /\ (s_unsafe so0 = true -> s_unsafe s = true)).
+            exists s, states n' !! x = Some s /\ s_proof s = s_proof so0 /\ (s_unsafe so0 = true -> s_unsafe s = true) /\
+                      s_body s = s_body so0).
   { intros x so0 Hso0. destruct (Ext_some _ _ _ _ x HE (ex_intro _ so0 Hso0)) as (s & Hs).
     exists s. split; [exact Hs|]. split; [rewrite (Hpr x s Hs), Hso0; reflexivity|].
+    split.
+    2:{ destruct (Ext_back _ _ _ _ x s HE Hs) as [[H|H]|[_ H]].
+        - assert (x = t) by (eapply Hetx; eauto). subst x. dcase Hcase.
+          + destruct A3. apply tkeys_elem. exists s. left. exact H.
+          + destruct (B13 s H).
+          + assert (s = s1) by (eapply Ext_unique; [exact HE|left; exact H|left; exact C5]). subst s1.
+            rewrite C11. symmetry. apply (vs_BODY _ _ HS t so0 body rel Hso0 HT).
+        - destruct (x_upd _ _ _ _ HE x s H) as (so' & Hso' & _ & _ & _ & _ & _ & Kb). congruence.
+        - congruence. }
     intros Hu. destruct (Ext_back _ _ _ _ x s HE Hs) as [[H|H]|[_ H]].
     - assert (x = t) by (eapply Hetx; eauto). subst x.
       dcase Hcase.
@@ -517,14 +518,14 @@ Proof.
         * apply (C2 so0 eq_refl). eapply conf_same_proof; [|exact Hc]. congruence.
         * destruct Hc as (b & Hb & _). congruence.
     - destruct (Hev1 x s H Hne) as (_ & Hu & _).
-      destruct (vu_US _ _ _ HU x Hu) as (so' & Hso' & Hpo). rewrite Hso' in Hp. cbn in Hp.
+      destruct (vu_US _ _ HU x Hu) as (so' & Hso' & Hpo). rewrite Hso' in Hp. cbn in Hp.
       apply Hpo. eapply conf_same_proof; [|exact Hc]. congruence. }
   assert (Hcnfm : forall x s, tev_in evs x s -> cnf (m_chain m) s = false).
-  { intros x s H. rewrite (vu_chain _ _ _ HU). apply (cnf_false n s Hch0). eapply Hncf; eauto. }
+  { intros x s H. rewrite (vu_chain _ _ HU). apply (cnf_false n s Hch0). eapply Hncf; eauto. }
   (* the new-transaction notification of this step *)
   assert (Hnewt : forall s, ETx t s ∈ evs ->
             rel = true /\ unconf n !! t = None /\ outs_ok body (s_outs s) = true /\ flags s /\
-            s_safe s = sf && negb cn /\
+            (s_safe s = true -> sf = true /\ cn = false) /\ s_body s = body /\
             (forall so0, states n !! t = Some so0 -> ~ conf n so0 /\ (s_unsafe so0 = true -> s_unsafe s = true))).
   { intros s H. dcase Hcase.
     - destruct A3. apply tkeys_elem. exists s. left. exact H.
@@ -533,38 +534,39 @@ Proof.
       split; [exact C3|]. split; [exact C1|]. split; [exact C7|].
       assert (Hmono : forall so0, states n !! t = Some so0 -> s_unsafe so0 = true -> s_unsafe s = true).
       { intros so0 Hso0 Hu. rewrite C9, Hso0. cbn [ouns]. rewrite Hu. apply orb_true_r. }
-      split; [|split; [exact C8|intros so0 Hso0; split; [apply (C2 so0 Hso0)|apply (Hmono so0 Hso0)]]].
-      (* flags *)
-      unfold flags. rewrite C8, C9, C10. destruct cn eqn:Ecn.
-      + rewrite andb_false_r. cbn. split; [reflexivity|reflexivity].
-      + rewrite andb_true_r. cbn [orb]. destruct (states n !! t) as [so0|] eqn:Eso; cbn [ouns ocan].
-        * destruct (vs_FL _ _ HS t so0 Eso) as [F1 F2]. split; [|exact F2].
-          destruct (s_unsafe so0) eqn:Eu0; [|apply andb_false_r].
-          pose proof (Hok t s so0 H Eso Eu0) as Hsafe. rewrite C8, andb_true_r in Hsafe.
-          rewrite Hsafe. reflexivity.
-        * split; [apply andb_false_r|discriminate]. }
+      split; [|split; [|split; [exact C11|intros so0 Hso0; split; [apply (C2 so0 Hso0)|apply (Hmono so0 Hso0)]]]].
+      + (* flags *)
+        assert (Hoc : ocan (states n !! t) = true -> ouns (states n !! t) = true).
+        { destruct (states n !! t) as [so0|] eqn:Eso; cbn [ouns ocan]; [|discriminate].
+          apply (vs_FL _ _ HS t so0 Eso). }
+        unfold flags. rewrite C8, C9, C10.
+        destruct (ouns (states n !! t)), (ocan (states n !! t)), sf, cn; cbn; split; try reflexivity; try discriminate;
+          intros; try reflexivity; try (discriminate (Hoc eq_refl)).
+      + intros Hs1. rewrite C8 in Hs1. apply andb_true_iff in Hs1. destruct Hs1 as [Hs1 _].
+        apply andb_true_iff in Hs1. destruct Hs1 as [K1 K2]. apply negb_true_iff in K2. auto. }
   (* the checks on the notifications *)
   assert (Hbad : first_bad dl m (OTx t body rel src) (map ev_of evs) = 0).
   { apply (gen_checks noF n m (states n')); [exact HS|exact HE| |].
     - intros x s H. assert (x = t) by (eapply Hetx; eauto). subst x.
-      destruct (Hnewt s H) as (Hrel & Hun0 & Houts & Hfl & Hsafe & Hold). subst rel.
+      destruct (Hnewt s H) as (Hrel & Hun0 & Houts & Hfl & Hsafe & Hbd & Hold). subst rel.
       exists body. cbn [op_tx_info]. rewrite Z.eqb_refl. split; [reflexivity|]. split; [exact Houts|].
       split; [exact Hfl|]. split.
       + intros so0 Hso0. destruct (Hold so0 Hso0) as [Hnc Hm]. split; [|exact Hm].
         unfold limbo. replace (mem t (m_live m)) with false.
-        2:{ symmetry. apply mem_false. intros Hin. apply (vu_L _ _ _ HU) in Hin. rewrite Hun0 in Hin.
+        2:{ symmetry. apply mem_false. intros Hin. apply (vu_L _ _ HU) in Hin. rewrite Hun0 in Hin.
             destruct Hin as (? & ?). discriminate. }
         rewrite (vs_PRF _ _ HS), Hso0. cbn [oproof negb andb].
         destruct (s_proof so0) as [b|] eqn:Ep.
-        * apply negb_true_iff, mem_false. rewrite (vu_chain _ _ _ HU). intros Hb. apply Hnc. exists b. auto.
-        * destruct (vu_SU _ _ _ HU t so0 Hso0 Ep) as (? & ?). congruence.
-      + destruct src; [ | |exact I]; rewrite Hsafe; reflexivity.
+        * apply negb_true_iff, mem_false. rewrite (vu_chain _ _ HU). intros Hb. apply Hnc. exists b. auto.
+        * destruct (vu_SU _ _ HU t so0 Hso0 Ep) as (? & ?). congruence.
+      + destruct src; [ | |exact I]; (destruct (s_safe s) eqn:Es1; [|reflexivity]);
+          destruct (Hsafe eq_refl) as [Hsf _]; discriminate Hsf.
     - intros x s H Hsafe _. destruct (decide (x = t)) as [->|Hne].
       + dcase Hcase.
         * destruct A3. apply tkeys_elem. exists s. right. exact H.
         * destruct (B11 s (or_intror H)) as [[_ ->]|(_ & Esf & Eus & _ & ->)]; [discriminate Hsafe|].
           split.
-          -- intros Hin. rewrite (vu_SAFE1 _ _ _ HU t u Hin B1) in Eus. discriminate.
+          -- intros Hin. rewrite (vu_SAFE1 _ _ HU t u Hin B1) in Eus. discriminate.
           -- left. subst sf. destruct src; try discriminate Esf. cbn. rewrite Z.eqb_refl. apply orb_true_r.
         * exfalso. eapply Ext_no_both; eauto.
       + destruct (Hev1 x s (or_intror H) Hne) as (_ & _ & _ & _ & Hns). congruence. }
@@ -582,7 +584,7 @@ Proof.
   rewrite Hb1.
   match goal with |- context [if ?c then 142 else _] => assert (Hb2 : c = false) end.
   { apply existsb_false_iff. intros c Hc. destruct (mem c (m_live m)) eqn:El; [|reflexivity]. cbn [andb].
-    apply negb_false_iff. apply mem_elem in El. apply (vu_L _ _ _ HU) in El. apply Hcs in Hc.
+    apply negb_false_iff. apply mem_elem in El. apply (vu_L _ _ HU) in El. apply Hcs in Hc.
     destruct (Hev2 c Hc El) as (s & Hs & Hus). apply has_ev_map. exists (EUpdate c s).
     split; [exact Hs|]. cbn. rewrite Z.eqb_refl, Hus. reflexivity. }
   rewrite Hb2.
@@ -598,14 +600,14 @@ Proof.
   rewrite Hb3.
   match goal with |- context [if ?c then 144 else _] => assert (Hb4 : c = false) end.
   { destruct (mem t (m_live m)) eqn:El; [|reflexivity]. rewrite Hz. fold cn. destruct cn eqn:Ecn; [|reflexivity].
-    cbn [andb negb]. apply negb_false_iff. apply mem_elem, (vu_L _ _ _ HU) in El. destruct El as (u0 & Hu0).
+    cbn [andb negb]. apply negb_false_iff. apply mem_elem, (vu_L _ _ HU) in El. destruct El as (u0 & Hu0).
     dcase Hcase; try congruence.
     apply has_ev_map. exists (EUpdate t (mk_unsafe_s so)). split; [apply B10; reflexivity|].
     cbn. rewrite Z.eqb_refl. reflexivity. }
   rewrite Hb4.
   match goal with |- context [fold_left note_event (map ev_of evs) ?mm] => set (m1 := mm) end.
   fold (notes m1 evs). eexists. split; [reflexivity|].
-  destruct (notes_frame m1 evs) as (N1 & N2 & N3 & N4 & N5 & N6 & N7 & N8 & N9). cbv zeta in *.
+  destruct (notes_frame m1 evs) as (N1 & N2 & N3 & N4 & N5 & N6 & N7 & N8 & N9 & N10). cbv zeta in *.
   assert (Hdeliv : has_ev (map ev_of evs) (fun e => (e_kind e =? 1) && (e_t e =? t)) = true <-> exists s, ETx t s ∈ evs).
   { rewrite has_ev_map. split.
     - intros (e & He & Hf). destruct e as [x s|x s|h b]; cbn in Hf; try discriminate.
@@ -632,13 +634,16 @@ Proof.
     + rewrite Hch. exact Hch0.
     + intros b [].
     + intros x s H. assert (x = t) by (eapply Hetx; eauto). subst x.
-      destruct (Hnewt s H) as (Hrel & Hun0 & Houts & Hfl & Hsafe & Hold). subst rel.
+      destruct (Hnewt s H) as (Hrel & Hun0 & Houts & Hfl & Hsafe & Hbd & Hold). subst rel.
       split; [exists body; exact HT|]. split; [exact Hfl|]. split.
-      * intros body' rel' HT'. destruct (T_body _ _ _ _ _ HT' HT) as [-> _]. exact Houts.
+      * intros body' rel' HT'. destruct (T_body _ _ _ _ _ HT' HT) as [-> _]. split; [exact Houts|exact Hbd].
       * intros so0 Hso0. apply (Hold so0 Hso0).
     + intros x s b _ _ [].
-  - assert (Hpool : forall x b, (x, b) ∈ m_pool (notes m1 evs) -> (x, b) ∈ m_pool m \/ (x = t /\ b = body)).
-    { rewrite N1. unfold m1. cbn [m_pool]. intros x b Hin. destruct (zlen body =? 0); [left; exact Hin|].
+  - assert (Hpool : forall x b, (x, b) ∈ m_pool (notes m1 evs) ->
+              (x, b) ∈ m_pool m \/ (x = t /\ b = body /\ confirmed n t = false)).
+    { rewrite N1. unfold m1. cbn [m_pool]. rewrite Hcfm. intros x b Hin.
+      destruct (confirmed n t); [left; exact Hin|]. cbn [orb] in Hin.
+      destruct (zlen body =? 0); [left; exact Hin|].
       apply elem_of_app in Hin. destruct Hin as [Hin|Hin]; [left; exact Hin|].
       apply elem_of_list_singleton in Hin. inversion Hin. auto. }
     assert (Hold : forall x, x ∈ m_vouched m -> x ∈ m_vouched m1).
@@ -655,22 +660,22 @@ Proof.
     (* a state that was unsafe or confirmed stays so *)
     assert (Hstick : forall x s, states n !! x = Some s -> (s_unsafe s = true \/ conf n s) ->
                exists s', states n' !! x = Some s' /\ (s_unsafe s' = true \/ conf n' s')).
-    { intros x s Hs H. destruct (Hfwd x s Hs) as (s' & Hs' & K1 & K2). exists s'. split; [exact Hs'|].
+    { intros x s Hs H. destruct (Hfwd x s Hs) as (s' & Hs' & K1 & K2 & _). exists s'. split; [exact Hs'|].
       destruct H as [H|H]; [left; auto|]. right. apply Hconf'. eapply conf_same_proof; eauto. }
     split.
-    + rewrite N5, Hnow. apply (vu_clock _ _ _ HU).
-    + rewrite N6, Hsy. apply (vu_sync _ _ _ HU).
-    + rewrite N7, Hch. apply (vu_chain _ _ _ HU).
-    + rewrite Hdl. apply (vu_delay _ _ _ HU).
-    + rewrite N1. exact HR'.
-    + intros x b Hin. destruct (Hpool x b Hin) as [H|[-> ->]]; [apply (vu_poolT _ _ _ HU), H|eauto].
-    + intros x b Hin Hrel. destruct (Hpool x b Hin) as [H|[-> ->]].
+    + rewrite N5, Hnow. apply (vu_clock _ _ HU).
+    + rewrite N6, Hsy. apply (vu_sync _ _ HU).
+    + rewrite N7, Hch. apply (vu_chain _ _ HU).
+    + rewrite Hdl. apply (vu_delay _ _ HU).
+    + rewrite N1. unfold m1. cbn [m_pool]. rewrite Hcfm. exact HR'.
+    + intros x b Hin. destruct (Hpool x b Hin) as [H|(-> & -> & _)]; [apply (vu_poolT _ _ HU), H|eauto].
+    + intros x b Hin Hrel. destruct (Hpool x b Hin) as [H|(-> & -> & _)].
       * eapply Ext_some; [exact HE|]. eapply vu_poolS; eauto.
       * assert (rel = true) by (eapply relT_rel; eauto). dcase Hcase.
         -- destruct A4 as [A4|(s & A4 & _)]; [congruence|]. eapply Ext_some; [exact HE|]. eauto.
         -- eapply Ext_some; [exact HE|]. eauto.
         -- rewrite (x_in _ _ _ _ HE t s1 (or_introl C5)). eauto.
-    + intros x. rewrite (notes_live_add m1 evs x Hcnf1). change (m_live m1) with (m_live m). rewrite (vu_L _ _ _ HU).
+    + intros x. rewrite (notes_live_add m1 evs x Hcnf1). change (m_live m1) with (m_live m). rewrite (vu_L _ _ HU).
       destruct (decide (x = t)) as [->|Hne].
       * dcase Hcase.
         -- rewrite A1, A2. split; [|intros (? & ?); discriminate]. intros [H|(s & H)]; [exact H|].
@@ -680,7 +685,7 @@ Proof.
       * rewrite (Hdom x Hne). split; [|auto]. intros [H|(s & H)]; [exact H|]. destruct (HnoETx x Hne s H).
     + intros x Hx.
       assert (Hgen : is_Some (unconf n !! x) -> exists s, states n' !! x = Some s /\ ~ conf n' s).
-      { intros Hu. destruct (vu_US _ _ _ HU x Hu) as (so0 & Hso0 & Hp0).
+      { intros Hu. destruct (vu_US _ _ HU x Hu) as (so0 & Hso0 & Hp0).
         destruct (Hfwd x so0 Hso0) as (s & Hs & K1 & _).
         exists s. split; [exact Hs|]. rewrite Hconf'. intros Hc. apply Hp0. eapply conf_same_proof; [|exact Hc]. congruence. }
       destruct (decide (x = t)) as [->|Hne]; [|apply Hgen, Hdom; assumption].
@@ -693,7 +698,7 @@ Proof.
       * destruct (decide (x = t)) as [->|Hne].
         -- dcase Hcase; [destruct A3; apply tkeys_elem; eauto|rewrite B2; eauto|rewrite C4; eauto].
         -- apply Hdom; [exact Hne|]. apply (Hev1 x s H Hne).
-      * pose proof (vu_SU _ _ _ HU x s H Hp) as Hu.
+      * pose proof (vu_SU _ _ HU x s H Hp) as Hu.
         destruct (decide (x = t)) as [->|Hne]; [|apply Hdom; assumption].
         dcase Hcase; [rewrite A1 in Hu; destruct Hu as (? & ?); discriminate|rewrite B2; eauto|rewrite C4; eauto].
     + intros x u0 Hu0. destruct (decide (x = t)) as [->|Hne].
@@ -704,7 +709,7 @@ Proof.
            intros s H. destruct (B13 s H).
         -- rewrite C4 in Hu0. inversion Hu0. subst u0. cbn [u_time].
            rewrite notes_seen_new; [|exists s1; split; [exact C5|apply (Hcnf1 t s1); left; exact C5]].
-           change (m_clock m1) with (m_clock m). rewrite (vu_clock _ _ _ HU). reflexivity.
+           change (m_clock m1) with (m_clock m). rewrite (vu_clock _ _ HU). reflexivity.
       * destruct (Hun' x u0 Hne Hu0) as (u1 & Hu1 & Ht & _). rewrite Ht.
         rewrite notes_seen_old; [rewrite (lookup_seen_ext m m1) by reflexivity; eapply vu_SEEN; eauto|].
         intros s H. destruct (HnoETx x Hne s H).
@@ -713,12 +718,12 @@ Proof.
       * dcase Hcase.
         -- congruence.
         -- assert (u0 = u') by congruence. subst u0. rewrite B8. destruct Hin as [[Hin _]|(s & Hs & Hss)].
-           ++ rewrite (vu_SAFE1 _ _ _ HU t u Hin B1). reflexivity.
+           ++ rewrite (vu_SAFE1 _ _ HU t u Hin B1). reflexivity.
            ++ destruct (B11 s Hs) as [[_ ->]|(_ & Esf & _)]; [discriminate Hss|rewrite Esf; apply orb_true_r].
         -- rewrite C4 in Hu0. inversion Hu0. subst u0. cbn [u_safe]. destruct Hin as [[_ Hin]|(s & Hs & Hss)].
            ++ destruct (Hin s1 C5).
            ++ assert (s = s1) by (eapply Ext_unique; [exact HE|exact Hs|left; exact C5]). subst s.
-              rewrite C8 in Hss. apply andb_true_iff in Hss. apply Hss.
+              destruct (Hnewt s1 C5) as (_ & _ & _ & _ & K & _). apply (proj1 (K Hss)).
       * destruct (Hun' x u0 Hne Hu0) as (u1 & Hu1 & _ & _ & Hsf & _). rewrite Hsf.
         destruct Hin as [[Hin _]|(s & Hs & Hss)].
         -- eapply vu_SAFE1; eauto.
@@ -728,7 +733,7 @@ Proof.
         -- congruence.
         -- assert (u0 = u') by congruence. subst u0. rewrite B8 in Hsafe.
            destruct (u_safe u) eqn:Eus.
-           ++ destruct (vu_SAFE2 _ _ _ HU t u B1 Eus) as [H|H];
+           ++ destruct (vu_SAFE2 _ _ HU t u B1 Eus) as [H|H];
                 [left; apply Hsafe_keep; [exact H|exact B13]|right; apply notes_unsafe_mono, H].
            ++ cbn [orb] in Hsafe. destruct cn eqn:Ecn.
               ** right. apply notes_unsafe. right. exists (mk_unsafe_s so).
@@ -736,16 +741,18 @@ Proof.
               ** destruct (s_safe so || s_unsafe so || s_cancel so) eqn:Efl.
                  --- apply orb_true_iff in Efl.
                      destruct Efl as [Efl|Efl]; [apply orb_true_iff in Efl; destruct Efl as [Efl|Efl]|].
-                     +++ left. apply Hsafe_keep; [|exact B13]. apply (vu_SAFE3 _ _ _ HU t u so B1 B3 Efl).
+                     +++ left. apply Hsafe_keep; [|exact B13]. apply (vu_SAFE3 _ _ HU t u so B1 B3 Efl).
                      +++ right. apply notes_unsafe_mono. apply (vs_UNS _ _ HS). eauto.
                      +++ right. apply notes_unsafe_mono. apply (vs_UNS _ _ HS). exists so. split; [exact B3|].
                          apply (vs_FL _ _ HS t so B3), Efl.
                  --- left. apply (Hsafe_ev t (mk_safe_s so)); [right; apply B12; auto|reflexivity].
         -- rewrite C4 in Hu0. inversion Hu0. subst u0. cbn [u_safe] in Hsafe. destruct cn eqn:Ecn.
            ++ right. apply notes_unsafe. right. exists s1. split; [left; exact C5|]. rewrite C9. reflexivity.
-           ++ left. apply (Hsafe_ev t s1); [left; exact C5|]. rewrite C8, Hsafe. reflexivity.
+           ++ destruct (ouns (states n !! t) || ocan (states n !! t)) eqn:Eo.
+              ** right. apply notes_unsafe. right. exists s1. split; [left; exact C5|]. rewrite C9, C10. exact Eo.
+              ** left. apply (Hsafe_ev t s1); [left; exact C5|]. rewrite C8, Hsafe. reflexivity.
       * destruct (Hun' x u0 Hne Hu0) as (u1 & Hu1 & _ & _ & Hsf & _). rewrite Hsf in Hsafe.
-        destruct (vu_SAFE2 _ _ _ HU x u1 Hu1 Hsafe) as [H|H];
+        destruct (vu_SAFE2 _ _ HU x u1 Hu1 Hsafe) as [H|H];
           [left; apply Hsafe_keep; [exact H|apply (HnoETx x Hne)]|right; apply notes_unsafe_mono, H].
     + intros x u0 s Hu0 Hs Hsafe. destruct (Ext_back _ _ _ _ x s HE Hs) as [H|[Hk H]].
       * eapply Hsafe_ev; eauto.
@@ -755,9 +762,9 @@ Proof.
         destruct (decide (x = t)) as [->|Hne].
         -- dcase Hcase.
            ++ congruence.
-           ++ apply (vu_SAFE3 _ _ _ HU t u s B1 H Hsafe).
+           ++ apply (vu_SAFE3 _ _ HU t u s B1 H Hsafe).
            ++ destruct (Hno s1 C5).
-        -- destruct (Hun' x u0 Hne Hu0) as (u1 & Hu1 & _). apply (vu_SAFE3 _ _ _ HU x u1 s Hu1 H Hsafe).
+        -- destruct (Hun' x u0 Hne Hu0) as (u1 & Hu1 & _). apply (vu_SAFE3 _ _ HU x u1 s Hu1 H Hsafe).
     + rewrite N2. intros x u0 Hu0 Htr0. destruct (decide (x = t)) as [->|Hne].
       * dcase Hcase.
         -- congruence.
@@ -767,21 +774,28 @@ Proof.
       * destruct (Hun' x u0 Hne Hu0) as (u1 & Hu1 & _ & Htt & _). rewrite Htt in Htr0.
         apply Hold. eapply vu_VCH; eauto.
     + rewrite N2. intros x H. rewrite Htrust in H. destruct (decide (x = t)) as [->|Hne].
-      * apply orb_true_iff in H. destruct H as [H|H]; [apply Hold, (vu_VCH2 _ _ _ HU), H|apply Hnewv, H].
-      * apply Hold, (vu_VCH2 _ _ _ HU), H.
+      * destruct (confirmed n t); [discriminate H|].
+        apply orb_true_iff in H. destruct H as [H|H]; [apply Hold, (vu_VCH2 _ _ HU), H|apply Hnewv, H].
+      * apply Hold, (vu_VCH2 _ _ HU), H.
     + rewrite N8. intros x Hin.
-      assert (Hmono : forall y, is_trusted (mp n) y = true -> is_trusted (mp n') y = true).
-      { intros y Hy. rewrite Htrust. destruct (decide (y = t)) as [->|?]; [rewrite Hy; reflexivity|exact Hy]. }
+      assert (Hcfst : confirmed n t = true ->
+                exists s, states n' !! t = Some s /\ (s_unsafe s = true \/ conf n' s)).
+      { intros K. apply confirmed_iff in K. destruct K as (s & Hs & Hc). eapply Hstick; eauto. }
+      assert (Hmono : forall y, is_trusted (mp n) y = true ->
+                is_trusted (mp n') y = true \/ (y = t /\ confirmed n t = true)).
+      { intros y Hy. rewrite Htrust. destruct (decide (y = t)) as [->|?]; [|left; exact Hy].
+        destruct (confirmed n t); [right; auto|left; rewrite Hy; reflexivity]. }
       assert (Hsplit : x ∈ m_vnow m \/ (x = t /\ tr = true)).
       { unfold m1 in Hin. cbn [m_vnow] in Hin. unfold tr.
         destruct src; cbn; rewrite ?add_z_elem in Hin; [|left; exact Hin|]; (destruct Hin as [Hin| ->]; auto). }
       destruct Hsplit as [Hold'|[-> Htr']].
-      * destruct (vu_VNOW _ _ _ HU x Hold') as [H|[(u0 & Hu0 & H)|[(s & Hs & H)|H]]].
-        -- left. apply Hmono, H.
+      * destruct (vu_VNOW _ _ HU x Hold') as [H|[(u0 & Hu0 & H)|[(s & Hs & H)|H]]].
+        -- destruct (Hmono x H) as [K|[-> K]]; [left; exact K|]. right. right. left. apply Hcfst, K.
         -- right. left. eapply Hkeep; eauto.
         -- right. right. left. eapply Hstick; eauto.
         -- right. right. right. exact H.
-      * left. rewrite Htrust, decide_True by reflexivity. rewrite Htr'. apply orb_true_r.
+      * destruct (confirmed n t) eqn:Ecf; [right; right; left; apply Hcfst; reflexivity|].
+        left. rewrite Htrust, decide_True by reflexivity. rewrite Htr'. apply orb_true_r.
     + rewrite N9. intros x Hin.
       assert (Hsplit : x ∈ m_vpersist m \/ (x = t /\ tr = true /\ exists s, ETx t s ∈ evs)).
       { unfold m1 in Hin. cbn [m_vpersist] in Hin. unfold tr.
@@ -790,7 +804,7 @@ Proof.
            apply add_z_elem in Hin; destruct Hin as [Hin| ->]; [left; exact Hin|];
            right; split; [reflexivity|split; [reflexivity|apply Hdeliv; reflexivity]]). }
       destruct Hsplit as [Hold'|(-> & Htr' & s & Hs)].
-      * destruct (vu_VPER _ _ _ HU x Hold') as [(u0 & Hu0 & H)|(s & Hs & H)].
+      * destruct (vu_VPER _ _ HU x Hold') as [(u0 & Hu0 & H)|(s & Hs & H)].
         -- left. eapply Hkeep; eauto.
         -- right. destruct (Hstick x s Hs (or_intror H)) as (s' & Hs' & [K|K]); [|eauto].
            destruct (Hfwd x s Hs) as (s2 & Hs2 & K1 & _). exists s2. split; [exact Hs2|].
@@ -804,102 +818,83 @@ Proof.
         -- congruence.
         -- assert (u0 = u') by congruence. subst u0. rewrite B9 in Hun0. apply orb_true_iff in Hun0.
            destruct Hun0 as [H|H].
-           ++ apply notes_unsafe_mono. apply (vu_UUNS _ _ _ HU t u B1 H).
+           ++ apply notes_unsafe_mono. apply (vu_UUNS _ _ HU t u B1 H).
            ++ apply notes_unsafe. right. exists (mk_unsafe_s so). split; [right; apply B10, H|reflexivity].
         -- rewrite C4 in Hu0. inversion Hu0. subst u0. discriminate Hun0.
       * destruct (Hun' x u0 Hne Hu0) as (u1 & Hu1 & _ & _ & _ & [[Hc _]|[_ Heq]]).
         -- destruct (Hev2 x Hc) as (s & Hs & Hus); [eauto|]. apply notes_unsafe. right. exists s.
            split; [right; exact Hs|]. rewrite Hus. reflexivity.
-        -- subst u0. apply notes_unsafe_mono. apply (vu_UUNS _ _ _ HU x u1 Hu1 Hun0).
+        -- subst u0. apply notes_unsafe_mono. apply (vu_UUNS _ _ HU x u1 Hu1 Hun0).
     + rewrite N3. intros x Hin Hrel.
-      assert (Hsplit : x ∈ m_conflicted m \/ (cn = true /\ (x = t \/ x ∈ cfs))).
-      { unfold m1 in Hin. cbn [m_conflicted] in Hin. rewrite Hz in Hin.
+      assert (Hsplit : x ∈ m_conflicted m \/ (cn = true /\ ((x = t /\ confirmed n t = false) \/ x ∈ cfs))).
+      { unfold m1 in Hin. cbn [m_conflicted] in Hin. rewrite Hz, Hcfm in Hin.
         assert (Ez : (zlen cfs =? 0) = negb cn) by (unfold cn; rewrite negb_involutive; reflexivity).
         rewrite Ez in Hin. destruct cn; cbn [negb] in Hin; [|left; exact Hin].
-        apply fold_add_z_elem in Hin. rewrite add_z_elem, Hcs in Hin. tauto. }
-      destruct Hsplit as [Hold'|(Ecn & [->|Hc])].
-      * destruct (vu_CONF _ _ _ HU x Hold' Hrel) as (s & Hs & H).
-        destruct (Hfwd x s Hs) as (s' & Hs' & _ & K1). exists s'. split; [exact Hs'|]. destruct H; auto.
+        apply fold_add_z_elem in Hin. rewrite Hcs in Hin. destruct (confirmed n t).
+        - tauto.
+        - rewrite add_z_elem in Hin. tauto. }
+      destruct Hsplit as [Hold'|(Ecn & [[-> Hcf0]|Hc])].
+      * destruct (vu_CONF _ _ HU x Hold' Hrel) as (s & Hs & H).
+        destruct (Hfwd x s Hs) as (s' & Hs' & _ & K1 & _). exists s'. split; [exact Hs'|]. auto.
       * assert (Hr : rel = true) by (eapply relT_rel; eauto). dcase Hcase.
-        -- destruct A4 as [A4|(s & A4 & A5)]; [congruence|].
-           destruct (Hfwd t s A4) as (s' & Hs' & _). exists s'. split; [exact Hs'|]. right. eapply HRt; eauto.
-        -- exists (mk_unsafe_s so). split; [apply (x_in _ _ _ _ HE); right; apply B10, Ecn|left; reflexivity].
-        -- exists s1. split; [apply (x_in _ _ _ _ HE); left; exact C5|left]. rewrite C9, Ecn. reflexivity.
+        -- exfalso. destruct A4 as [A4|(s & A4 & A5)]; [congruence|].
+           assert (confirmed n t = true) by (apply confirmed_iff; eauto). congruence.
+        -- exists (mk_unsafe_s so). split; [apply (x_in _ _ _ _ HE); right; apply B10, Ecn|reflexivity].
+        -- exists s1. split; [apply (x_in _ _ _ _ HE); left; exact C5|]. rewrite C9, Ecn. reflexivity.
       * pose proof Hc as Hc'. apply conflicts_of_elem in Hc'. destruct Hc' as (Hne & b' & Hb' & _).
-        destruct (vu_poolS _ _ _ HU x b' Hb' Hrel) as (so0 & Hso0).
-        destruct (unconf n !! x) as [u0|] eqn:Eu0.
-        -- destruct (Hev2 x Hc) as (s & Hs & Hus); [eauto|].
-           exists s. split; [apply (x_in _ _ _ _ HE); right; exact Hs|left; exact Hus].
-        -- destruct (Hfwd x so0 Hso0) as (s' & Hs' & _). exists s'. split; [exact Hs'|]. right.
-           destruct (conf_dec n so0) as [Hcf|Hncf0].
-           ++ apply HRsub. eapply vu_HELD; eauto.
-           ++ destruct (vu_LIMBO _ _ _ HU x b' so0 Hb' Hso0 Hncf0) as (? & ?). congruence.
-    + intros x Hin. destruct (HRnew x Hin) as [H|[-> (s & Hs & Hc)]].
-      * destruct (vu_RS _ _ _ HU x H) as (s & Hs & Hc). destruct (Hfwd x s Hs) as (s' & Hs' & K1 & _).
-        exists s'. split; [exact Hs'|]. apply Hconf'. eapply conf_same_proof; eauto.
-      * destruct (Hfwd t s Hs) as (s' & Hs' & K1 & _).
-        exists s'. split; [exact Hs'|]. apply Hconf'. eapply conf_same_proof; eauto.
-    + intros x b s Hin Hs Hc. apply Hconf' in Hc.
-      assert (Hcold : exists so0, states n !! x = Some so0 /\ conf n so0).
-      { pose proof (Hpr x s Hs) as Hp. destruct (states n !! x) as [so0|] eqn:Eso; cbn in Hp.
-        - exists so0. split; [reflexivity|]. eapply conf_same_proof; [|exact Hc]. congruence.
-        - destruct Hc as (b0 & Hb0 & _). congruence. }
-      destruct Hcold as (so0 & Hso0 & Hc0).
-      destruct (Hpool x b Hin) as [H|[-> ->]].
-      * apply HRsub. eapply vu_HELD; eauto.
-      * eapply HRt; eauto.
-    + intros x b s Hin Hs Hc. rewrite Hconf' in Hc.
-      destruct (decide (x = t)) as [->|Hne].
+        destruct (vu_poolS _ _ HU x b' Hb' Hrel) as (so0 & Hso0).
+        pose proof (vu_HELD _ _ HU x b' so0 Hb' Hso0) as Hu0.
+        destruct (Hev2 x Hc Hu0) as (s & Hs & Hus).
+        exists s. split; [apply (x_in _ _ _ _ HE); right; exact Hs|exact Hus].
+    + intros x b s Hin Hs. destruct (Hpool x b Hin) as [H|(-> & -> & Hcf0)].
+      * assert (Hne : x <> t).
+        { intros ->. eapply held_false in Hheld. apply Hheld, H. }
+        apply Hdom; [exact Hne|].
+        destruct (Ext_back _ _ _ _ x s HE Hs) as [H0|[_ H0]].
+        -- apply (Hev1 x s H0 Hne).
+        -- eapply vu_HELD; eauto.
       * dcase Hcase.
         -- exfalso. destruct A4 as [A4|(s0 & A4 & A5)].
            ++ subst rel. assert (Hr : relT t).
-              { apply (vs_REL _ _ HS). pose proof (Hpr t s Hs) as Hp.
-                destruct (Ext_back _ _ _ _ t s HE Hs) as [H|[_ H]]; [|eauto].
+              { apply (vs_REL _ _ HS). destruct (Ext_back _ _ _ _ t s HE Hs) as [H|[_ H]]; [|eauto].
                 destruct A3. apply tkeys_elem. eauto. }
               pose proof (relT_rel t body false Hr HT). discriminate.
-           ++ apply Hc. destruct (Ext_back _ _ _ _ t s HE Hs) as [H|[_ H]].
-              ** destruct A3. apply tkeys_elem. eauto.
-              ** assert (s = s0) by congruence. subst s. exact A5.
+           ++ assert (confirmed n t = true) by (apply confirmed_iff; eauto). congruence.
         -- rewrite B2. eauto.
         -- rewrite C4. eauto.
-      * apply Hdom; [exact Hne|]. destruct (Hpool x b Hin) as [H|[-> _]]; [|congruence].
-        pose proof (Hpr x s Hs) as Hp. destruct (states n !! x) as [so0|] eqn:Eso; cbn in Hp.
-        -- eapply (vu_LIMBO _ _ _ HU x b so0 H Eso). intros Hc0. apply Hc. eapply conf_same_proof; eauto.
-        -- destruct (Ext_back _ _ _ _ x s HE Hs) as [H0|[_ H0]]; [|congruence].
-           apply (Hev1 x s H0 Hne).
+    + intros x u0 Hu0.
+      assert (Hlb : lookup_body (notes m1 evs) x = if t =? x then Some body else lookup_body m x).
+      { unfold lookup_body. rewrite N10. unfold m1. cbn [m_body find fst snd]. destruct (t =? x); reflexivity. }
+      rewrite Hlb. destruct (decide (x = t)) as [->|Hne].
+      * rewrite Z.eqb_refl. dcase Hcase.
+        -- congruence.
+        -- destruct (Hfwd t so B3) as (s' & Hs' & _ & _ & Kb). exists s'. split; [exact Hs'|].
+           rewrite Kb, (vs_BODY _ _ HS t so body rel B3 HT). reflexivity.
+        -- exists s1. split; [apply (x_in _ _ _ _ HE); left; exact C5|]. rewrite C11. reflexivity.
+      * replace (t =? x) with false by (symmetry; apply Z.eqb_neq; congruence).
+        destruct (Hun' x u0 Hne Hu0) as (u1 & Hu1 & _).
+        destruct (vu_BODY _ _ HU x u1 Hu1) as (so0 & Hso0 & Hb0).
+        destruct (Hfwd x so0 Hso0) as (s' & Hs' & _ & _ & Kb). exists s'. split; [exact Hs'|]. rewrite Kb. exact Hb0.
+    + apply notes_live_NoDup. exact (vu_LND _ _ HU).
 Qed.
 
-Lemma step_tx Rs n m t body rel src : Inv Rs n m -> OTx t body rel src ∈ all ->
-  op_ok n Rs (OTx t body rel src) = true ->
+Lemma step_tx n m t body rel src : Inv n m -> OTx t body rel src ∈ all ->
   exists m', monitor_step dl m (OTx t body rel src) (snd (step n (OTx t body rel src))) = (0, m') /\
-             Inv (next_R n Rs (OTx t body rel src)) (fst (step n (OTx t body rel src))) m'.
+             Inv (fst (step n (OTx t body rel src))) m'.
 Proof.
-  intros HI Ho Hok.
-  (* the hypothesis on the notifications of the step *)
-  assert (Hev : forall evs, snd (step n (OTx t body rel src)) = OK :: enc_events evs ->
-            forall x s' so, ETx x s' ∈ evs -> states n !! x = Some so -> s_unsafe so = true -> s_safe s' = false).
-  { intros evs Hob x s' so Hin Hso Hu. unfold op_ok in Hok. apply andb_true_iff in Hok. destruct Hok as [Hok _].
-    unfold step_events in Hok. cbn [carries_events obs_events] in Hok. rewrite Hob, decode_enc in Hok.
-    rewrite forallb_elem in Hok.
-    assert (Hin' : ev_of (ETx x s') ∈ map ev_of evs) by (apply elem_of_list_fmap; eauto).
-    specialize (Hok _ Hin'). cbn [ev_of e_kind e_t e_safe Z.eqb Pos.eqb] in Hok. rewrite Hso in Hok.
-    cbv beta iota in Hok. rewrite Hu in Hok. cbn [andb negb] in Hok.
-    destruct (s_safe s'); [discriminate Hok|reflexivity]. }
-  cbn [step next_R] in *. destruct src.
+  intros HI Ho. cbn [step]. destruct src.
   - destruct (insync n) eqn:Esy.
-    + pose proof (tx_processed Rs n m t body rel STrusted HI Ho) as H. cbv zeta in H. cbn [src_tr src_sf] in H.
-      destruct (process_unconfirmed n t body rel true false) as [n1 evs]. cbn [fst snd andb] in *.
-      apply H; [rewrite (vu_sync _ _ _ (proj2 HI)); exact Esy|]. apply (Hev evs eq_refl).
-    + cbn [fst snd andb]. change [OK] with (OK :: enc_events []).
+    + pose proof (tx_processed n m t body rel STrusted HI Ho) as H. cbv zeta in H. cbn [src_tr src_sf] in H.
+      destruct (process_unconfirmed n t body rel true false) as [n1 evs]. cbn [fst snd] in *.
+      apply H. rewrite (vu_sync _ _ (proj2 HI)). exact Esy.
+    + cbn [fst snd]. change [OK] with (OK :: enc_events []).
       rewrite monitor_step_events by (try reflexivity; discriminate). cbv zeta. cbn [map first_bad fold_left Z.eqb negb].
-      rewrite Z.eqb_refl. unfold tx_step. rewrite (vu_sync _ _ _ (proj2 HI)), Esy. cbn.
+      rewrite Z.eqb_refl. unfold tx_step. rewrite (vu_sync _ _ (proj2 HI)), Esy. cbn.
       exists m. split; [reflexivity|exact HI].
-  - pose proof (tx_processed Rs n m t body rel SUntrusted HI Ho eq_refl) as H. cbv zeta in H. cbn [src_tr src_sf] in H.
-    destruct (process_unconfirmed n t body rel false false) as [n1 evs]. cbn [fst snd andb] in *.
-    apply H. apply (Hev evs eq_refl).
-  - pose proof (tx_processed Rs n m t body rel SLocal HI Ho eq_refl) as H. cbv zeta in H. cbn [src_tr src_sf] in H.
-    destruct (process_unconfirmed n t body rel true true) as [n1 evs]. cbn [fst snd andb] in *.
-    apply H. apply (Hev evs eq_refl).
+  - pose proof (tx_processed n m t body rel SUntrusted HI Ho eq_refl) as H. cbv zeta in H. cbn [src_tr src_sf] in H.
+    destruct (process_unconfirmed n t body rel false false) as [n1 evs]. cbn [fst snd] in *. exact H.
+  - pose proof (tx_processed n m t body rel SLocal HI Ho eq_refl) as H. cbv zeta in H. cbn [src_tr src_sf] in H.
+    destruct (process_unconfirmed n t body rel true true) as [n1 evs]. cbn [fst snd] in *. exact H.
 Qed.
 
 End Flow.
